@@ -8,7 +8,11 @@
     are regenerated from the Go source on every run (Generated.v); the loops
     [record_end], [cigar_lengths], [cigar_isvalid], [overlapping_bins_for],
     [csi_reg2bin], [csi_reg2bins] follow the Go code by hand (Model/Cigar.v,
-    Model/Bins.v) and are run against the implementation.
+    Model/Bins.v) and are run against the implementation. The loop of
+    csi.reg2bin is in addition translated statement by statement by gen/
+    ([csigen_reg2bin], a fuel recursion) and proved equal to the hand model for
+    every input ([csi_reg2bin_translated]), so the CSI bin theorems are
+    re-checked against the source text of that loop on every run.
     Specification side: Model/SamSpecArith.v (SAMv1 1.4, 4.2.1, 5.3; CSIv1).
 
     A CIGAR is a list of uint32 words; [spec_decode c = Some sc] decodes it
@@ -20,7 +24,7 @@
 From Coq Require Import ZArith List Bool.
 From Hts Require Import Base.Prim Base.BinArith Generated
   Model.SamSpecArith Model.Cigar Model.Bins
-  Proofs.Bins Proofs.Cigar Proofs.CigarValid.
+  Proofs.Bins Proofs.Cigar Proofs.CigarValid Proofs.CsiGen.
 Import ListNotations.
 Open Scope Z_scope.
 
@@ -178,6 +182,27 @@ Theorem csi_reg2bin_is_spec :
 Proof. exact csi_reg2bin_is_spec_gen. Qed.
 Print Assumptions csi_reg2bin_is_spec.
 
+(** The translation of csi.reg2bin regenerated from csi/csi.go on every run is
+    the hand model for every input and every fuel above the depth (so the
+    theorems below speak about the loop as the source has it), it is the
+    specification's function on every legal geometry, and with no fuel it
+    reports Stuck rather than a value. *)
+Theorem csi_reg2bin_translated :
+  forall beg e ms depth k,
+    0 <= depth < 2 ^ 32 ->
+    csigen_reg2bin (S (Z.to_nat depth) + k) beg e ms depth = csi_reg2bin beg e ms depth.
+Proof. exact csigen_reg2bin_is_model. Qed.
+Print Assumptions csi_reg2bin_translated.
+
+Theorem csi_reg2bin_translated_is_spec :
+  forall b e ms depth,
+    0 <= ms -> 0 <= depth <= 10 -> ms + 3 * depth <= 62 ->
+    0 <= b <= 2 ^ (ms + 3 * depth) -> 0 <= e <= 2 ^ (ms + 3 * depth) ->
+    csigen_reg2bin 11 b e ms depth = Ok (spec_csi_reg2bin b e ms depth)
+    /\ csigen_reg2bin 0 b e ms depth = Stuck.
+Proof. intros; split; [apply csigen_reg2bin_is_spec; assumption | apply csigen_reg2bin_no_fuel]. Qed.
+Print Assumptions csi_reg2bin_translated_is_spec.
+
 Theorem csi_reg2bins_is_spec :
   forall b e ms depth,
     0 <= ms -> 0 <= depth <= 10 -> ms + 3 * depth <= 62 ->
@@ -301,5 +326,7 @@ Example ex_bins :
   /\ csi_reg2bins 16385 16387 14 5 = Ok [0; 1; 9; 73; 585; 4682]
   /\ overlapping_bins_for 16385 16387 = Ok [0; 1; 9; 73; 585; 4682]
   /\ csi_reg2bin 1000 9000 3 10 = Ok 37449
+  /\ csigen_reg2bin 11 1000 9000 3 10 = Ok 37449 /\ csigen_reg2bin 6 0 16389 14 5 = Ok 585
+  /\ csigen_reg2bin 5 0 (2 ^ 29) 14 5 = Stuck
   /\ existsb (Z.eqb 37449) (spec_csi_reg2bins 8999 9001 3 10) = true.
 Proof. vm_compute. repeat split; reflexivity. Qed.
